@@ -61,6 +61,8 @@ func c15Gen(tier string, emit func(c15Case)) {
 		for _, st := range []string{"map", "builder"} {
 			emit(c15Case{Kind: "build", Template: t, Style: st, Reg: "group"})
 			emit(c15Case{Kind: "build", Template: t, Style: st, Reg: "named-later"})
+			// a POST route with the same literal skeleton and variable names but other variable regexes is registered first
+			emit(c15Case{Kind: "build", Template: t, Style: st, Reg: "twin-before"})
 		}
 	}
 	// naming: all sequences of <= 3 operations over 2 names x 3 APIs
@@ -203,6 +205,18 @@ func c15Run(c c15Case, st *fw.Stats) []fw.Viol {
 		r.Group("/api", func() { r.AddRoute(rt) })
 	case "named-later":
 		r.GET(c.Template, th).NamedTo("target", r)
+	case "twin-before":
+		twin := c15VarRe.ReplaceAllStringFunc(c.Template, func(m string) string {
+			sm := c15VarRe.FindStringSubmatch(m)
+			if sm[2] != "" {
+				return "{" + sm[1] + "}" // drop the regex
+			}
+			return "{" + sm[1] + `:\d+}` // add one
+		})
+		if twin != c.Template {
+			r.POST(twin, func(ctx *rux.Context) { seenIdx = 4 })
+		}
+		r.AddNamed("target", c.Template, th, "GET")
 	default:
 		r.AddNamed("target", c.Template, th, "GET")
 	}
@@ -345,7 +359,7 @@ func c15Run(c c15Case, st *fw.Stats) []fw.Viol {
 var c15Spec = fw.Spec[c15Case]{
 	ID:    "C15",
 	Level: "model_checking",
-	Rule: "complete product: 17 named templates (static, leading variable next to dynamic decoys whose literal first segment is one of the values, default / custom / global variable regexes, 1-3 variables, literal prefix and suffix around a variable, '.' in the literal text) x ALL value tuples over 19 values (spaces, non-ASCII, %, ?, #, ;, encoded slash, dots, slash where the regex admits it) that satisfy the variables' regexes x 4 argument styles (M map, key/value pairs, BuildRequestURL builder, one builder object reused across routes) x 3 registrations (top-level AddNamed; NewNamedRoute + ToURL() + AddRoute inside a group; named after registration with NamedTo) x 4 sets of extra query arguments; " +
+	Rule: "complete product: 17 named templates (static, leading variable next to dynamic decoys whose literal first segment is one of the values, default / custom / global variable regexes, 1-3 variables, literal prefix and suffix around a variable, '.' in the literal text) x ALL value tuples over 19 values (spaces, non-ASCII, %, ?, #, ;, encoded slash, dots, slash where the regex admits it) that satisfy the variables' regexes x 4 argument styles (M map, key/value pairs, BuildRequestURL builder, one builder object reused across routes) x 4 registrations (top-level AddNamed; NewNamedRoute + ToURL() + AddRoute inside a group; named after registration with NamedTo; after a POST route with the same skeleton and variable names but other variable regexes) x 4 sets of extra query arguments; " +
 		"each built URL is matched (Match on u.Path) and requested (ServeHTTP on a request parsed from u.String()); naming: all sequences of <=3 (thorough 4) naming operations over 2 names x {AddNamed, NewNamedRoute+AddRoute, route.NamedTo on a new route, NamedTo renaming the first / the previous route}; non-trivial = a template with variables / a sequence of >=2 naming operations",
 	Assume: []string{"values containing '{' or '}' are excluded: Build substitutes in Go map order, which the harness cannot own", "routes without optional parts, as the statement says", "value tuples that spell a path which is not in normal form (white space or '/' at the very end) are skipped: path normalisation (C11) ignores those characters by design"},
 	Bounds: func(tier string) map[string]any {
